@@ -121,6 +121,26 @@ def cases():
 
     out.append(Case("HRNP", "sum", 16, (80, 96), hrnp, lambda o: bytes_to_bits(o.as_bytes()),
                     lambda b: HRNP.from_bytes(b.tobytes()), lambda o: o.checksum_correct))
+
+    def hrnp_updated(r):
+        """the relay / reply path: a packet that was received (and verified) gets a field updated and is sent on; HRNP's
+        serialiser generates the checksum over what it assembles, so the generated check field must verify again"""
+        o = HRNP.from_bytes(hrnp(r).as_bytes())
+        k = r.randrange(5)
+        if k == 0:
+            o.packet_number = (o.packet_number + r.choice([1, 255, 256])) & 0xFFFF
+        elif k == 1:
+            o.source, o.destination = o.destination, o.source
+        elif k == 2:
+            o.block_number = (o.block_number + 1) & 0xFF
+        elif k == 3:
+            o.opcode = HRNPOpcodes.DATA_ACK
+        else:
+            o.data = hrnp(r).data
+        return o
+
+    out.append(Case("HRNP/updated", "sum", 16, (80, 96), hrnp_updated, lambda o: bytes_to_bits(o.as_bytes()),
+                    lambda b: HRNP.from_bytes(b.tobytes()), lambda o: o.checksum_correct))
     return out
 
 
